@@ -17,13 +17,13 @@ import numpy as np
 
 from .. import taps
 from ..ctx import Skip, digest
-from ..snap import snap, obs_digest
+from ..snap import snap, obs_digest, any_digest
 from ..ref import dense, gls
 
 ID = 'C07'
 LEVEL = 'exploration'
 DECIDING = ['tap:least_squares', 'fits_judged', 'metamorphic_pairs_judged', 'corr_fit_judged', 'prior_string_gradients_judged', 'stored_state_monitored',
-            'alias_cases_judged', 'histories_judged', 'scale_pairs_judged', 'representations_judged', 'chained_fits_judged', 'boundary_cases_judged']
+            'alias_cases_judged', 'spectator_parameters_judged', 'histories_judged', 'scale_pairs_judged', 'representations_judged', 'chained_fits_judged', 'boundary_cases_judged']
 RULE = ('cases: linear-basis models from {1, x, x^2, sin x, exp(-x), x2, x*x2} with 1-4 parameters, 1-3 data sets sharing parameters, '
         '1-2 abscissa dimensions, data on independent / shared / mixed / nested ensembles (AR noise, common modes, replicas, covariance inputs), '
         'gamma_method with S in {0,1,2,3} before the fit, priors none / list / dict of Obs / dict of strings / mixed on any subset, weights '
@@ -61,6 +61,7 @@ REF_BASIS = {
     'exp': lambda x1, x2: np.exp(-x1),
     'y': lambda x1, x2: x2,
     'xy': lambda x1, x2: x1 * x2,
+    'zero': lambda x1, x2: 0.0 * x1,          # a parameter that is touched but does not enter (spectator)
 }
 LIB_BASIS = {}
 KEY_POOL = ['a', 'ab', 'b', 'a1', 'c10', 'c9']
@@ -99,14 +100,17 @@ def install_judgement_counters(ctx):
 
     def close(got, exp, mechanism, *args, **kw):
         ctx.count('judged:' + family(mechanism))
+        ctx.count('judged-field:' + mechanism.split(':')[-1])
         return c_close(got, exp, mechanism, *args, **kw)
 
     def equal(got, exp, mechanism, *args, **kw):
         ctx.count('judged:' + family(mechanism))
+        ctx.count('judged-field:' + mechanism.split(':')[-1])
         return c_equal(got, exp, mechanism, *args, **kw)
 
     def require(cond, mechanism, detail=None):
         ctx.count('judged:' + family(mechanism))
+        ctx.count('judged-field:' + mechanism.split(':')[-1])
         return c_require(cond, mechanism, detail)
     ctx.close, ctx.equal, ctx.require = close, equal, require
 
@@ -125,6 +129,7 @@ def setup(ctx):
         'exp': lambda x1, x2: anp.exp(-x1),
         'y': lambda x1, x2: x2,
         'xy': lambda x1, x2: x1 * x2,
+        'zero': lambda x1, x2: 0.0 * x1,
     })
     import pyerrors.fits as fits
     taps.tap_function(fits, 'least_squares', CountMonitor())
@@ -136,9 +141,9 @@ def teardown(ctx):
 
 
 def plan(tier):
-    m = 1 if tier == 'quick' else 12
-    return [('fit', 300 * m), ('corrfit', 60 * m), ('alias', 60 * m), ('history', 36 * m), ('scale', 60 * m), ('representation', 70 * m),
-            ('chain', 36 * m), ('boundary', 42 * m), ('expchisq', 60 * m)]
+    m = 1 if tier == 'quick' else 8
+    return [('fit', 260 * m), ('corrfit', 60 * m), ('alias', 72 * m), ('history', 54 * m), ('scale', 60 * m), ('representation', 80 * m),
+            ('chain', 54 * m), ('boundary', 56 * m), ('expchisq', 60 * m), ('spectator', 54 * m)]
 
 
 # ------------------------------------------------------------------------------------------
@@ -206,7 +211,7 @@ def make_data(rng, means, mode, tier):
     tau = float(rng.choice([0, 0, 1.5, 4]))
     ys = []
     if mode == 'indep':
-        names = list(rng.permutation(ENS_NAMES)[:npt])
+        names = list(rng.permutation(ENS_NAMES + ['Q%d' % i for i in range(max(0, npt - len(ENS_NAMES)))])[:npt])
         for i in range(npt):
             n = int(rng.integers(20, nmax + 1))
             reps = int(rng.choice([1, 1, 2]))
@@ -232,13 +237,16 @@ def make_data(rng, means, mode, tier):
     if mode == 'mixed' and rng.random() < 0.6:
         cv = pe.cov_Obs(0.0, float(rng.uniform(0.3, 1.5)) ** 2, 'cvSys')
     other = [str(e) for e in rng.permutation([e for e in ENS_NAMES if e != ens and not e.startswith(ens)])[:3]]
+    equal_sizes = bool(rng.integers(0, 2))
     for i in range(npt):
         samples, idl = [], []
         for r, l in enumerate(lens):
             s = means[i] + sig[i] * np.sqrt(l) * (cw * common[r] + np.sqrt(1 - cw * cw) * ar_noise(rng, l, tau))
             cfgs = np.arange(1, l + 1)
             if mode == 'nested' and rng.random() < 0.6:
-                keep = np.sort(rng.choice(l, size=int(l * rng.uniform(0.6, 0.95)), replace=False))
+                # half of the time all points keep the same number of configurations (equal summaries, different members)
+                size = int(l * 0.8) if equal_sizes else int(l * rng.uniform(0.6, 0.95))
+                keep = np.sort(rng.choice(l, size=size, replace=False))
                 s, cfgs = s[keep], cfgs[keep]
             samples.append(s)
             idl.append(list(int(c) for c in cfgs))
@@ -307,6 +315,8 @@ def make_problem(ctx, rng, opts):
     # number of points
     exact = opts.get('exact', False)
     ntot = k if exact else k + int(rng.integers(1, 7))
+    if opts.get('many_points'):
+        ntot = int(rng.integers(12, 41))           # more than 10 members, sorted / numbered positions beyond one digit
     if opts.get('npoints') is not None:
         ntot = int(opts['npoints'])
     ntot = max(ntot, nsets)
@@ -422,6 +432,15 @@ def build_call(prob, pres, opts, Lcanon):
     sets = prob['sets']
     dim = prob['dim']
     cont = pres['container']
+    cache = prob.get('funcs')                   # histories: one function object in several calls with other data / abscissae
+
+    def lib_func_(terms, dim_):
+        if cache is None:
+            return lib_func(terms, dim_)
+        key = (tuple(terms), dim_)
+        if key not in cache:
+            cache[key] = lib_func(terms, dim_)
+        return cache[key]
 
     def xs(d):
         x = np.asarray(sets[d]['x'], dtype=float)[..., pres['perm'][d]]
@@ -439,7 +458,7 @@ def build_call(prob, pres, opts, Lcanon):
             return tuple(y)
         return y
     if pres['form'] == 'single':
-        x, y, f = xs(0), ysel(0), lib_func(sets[0]['terms'], dim)
+        x, y, f = xs(0), ysel(0), lib_func_(sets[0]['terms'], dim)
         keyl = ['']
     elif pres['form'] == 'dict':
         x, y, f = {}, {}, {}
@@ -448,7 +467,7 @@ def build_call(prob, pres, opts, Lcanon):
         for d in pres['order'][1]:
             y[sets[d]['key']] = ysel(d)
         for d in pres['order'][2]:
-            f[sets[d]['key']] = lib_func(sets[d]['terms'], dim)
+            f[sets[d]['key']] = lib_func_(sets[d]['terms'], dim)
         keyl = sorted(s['key'] for s in sets)
     else:
         xa = [np.asarray(sets[d]['x'], dtype=float)[..., pres['perm'][d]] for d in range(len(sets))]
@@ -501,7 +520,10 @@ def reference(prob, opts, dy, prior_err_at_call, Lcanon):
         W = gls.weights_diag(dy)
     elif opts['weights'] == 'estimated':
         corr = gls.corr_from_snapshots(snaps)
-        if not np.all(np.isfinite(corr)) or np.linalg.cond(corr) > 1e10:
+        # a correlated fit needs a positive definite correlation matrix; the estimate is not guaranteed to be one when the points live on
+        # different subsets of the configurations (nested lists): such inputs are refused by the library (LinAlgError) and are outside
+        # the quantifier
+        if not np.all(np.isfinite(corr)) or np.linalg.cond(corr) > 1e10 or not np.linalg.eigvalsh(corr)[0] > 1e-9:
             raise Skip()
         W = gls.weights_from_corr(corr, dy)
     else:
@@ -716,6 +738,7 @@ def options_for(idx, rng):
     else:
         o['mode'] = str(rng.choice(['indep', 'shared', 'mixed', 'nested']))
     o['exact'] = rng.random() < 0.06
+    o['many_points'] = (not o['exact']) and o['weights'] != 'estimated' and rng.random() < 0.08
     o['expected_chisquare'] = (o['weights'] == 'diag' and o['priors'] == 'none' and rng.random() < 0.6)
     o['variant'] = ['permute', 'keyorder', 'container', 'form'][(idx // 120 + idx) % 4]
     if o['variant'] == 'keyorder' and o['nsets'] == 1:
@@ -926,15 +949,31 @@ class class_state:
             d_.update(v)
 
 
+def arguments_digest(x, y, f, pri, kw):
+    """The containers handed to the library (arrays, lists, dictionaries with their key order, the supplied matrix, the initial guess):
+    the caller must find them as they were."""
+    def d(v):
+        if isinstance(v, dict):
+            return [(repr(k_), d(w)) for k_, w in v.items()]
+        if callable(v):
+            return id(v)
+        return any_digest(v)
+    return [d(x), d(y), d(f), d(pri), [(k_, d(w)) for k_, w in sorted(kw.items())]]
+
+
 def guarded_fit(ctx, prob, call, method, mech, perturb=False, runner=None):
     """Run one fit with the stored-state monitors around it: inputs (data + analysis results) and class-level parameters must be
     what they were; the result must not share fluctuation arrays with the inputs or between parameters."""
     inputs = unique_inputs(prob)
     before = [analysis_digest(o) for o in inputs]
     x, y, f, pri, kw = call
+    args_before = arguments_digest(x, y, f, pri, kw)
     with class_state(inputs, perturb) as cs:
         res = runner() if runner is not None else run_fit(ctx, x, y, f, pri, kw, method)
     after = [analysis_digest(o) for o in inputs]
+    args_after = arguments_digest(x, y, f, pri, kw)
+    ctx.require(args_before == args_after, mech + ':arguments-changed-by-fit',
+                lambda: {'changed': [n for n, a_, b_ in zip(('x', 'y', 'func', 'priors', 'kwargs'), args_before, args_after) if a_ != b_]})
     changed = [i for i, (a_, b_) in enumerate(zip(before, after)) if a_ != b_]
     ctx.ev()
     if changed:
@@ -1028,9 +1067,18 @@ def hard_options(idx, rng, **over):
 
 
 # ---- item 4: the same object in several argument slots -----------------------------------------------------------------
+def run_spectator_case(ctx, idx, rng):
+    """Checklist items 13 / 14: the spectator judgements get a kind of their own (every case is one)."""
+    run_alias_case(ctx, 6 * idx + 5, rng)
+
+
 def run_alias_case(ctx, idx, rng):
-    variant = ['same-object-several-points', 'data-point-is-prior', 'same-prior-two-parameters', 'keys-share-y-objects', 'all'][idx % 5]
-    o = hard_options(idx // 5, rng, weights=['diag', 'supplied'][(idx // 5) % 2])
+    variant = ['same-object-several-points', 'data-point-is-prior', 'same-prior-two-parameters', 'keys-share-y-objects', 'all', 'spectator-parameter'][idx % 6]
+    o = hard_options(idx // 6, rng, weights=['diag', 'supplied', 'estimated'][(idx // 6) % 3] if variant == 'spectator-parameter' else ['diag', 'supplied'][(idx // 6) % 2])
+    if variant == 'spectator-parameter':
+        o['k'] = int(rng.integers(2, 5))
+        if o['weights'] == 'estimated':
+            o['mode'] = 'shared'
     if variant in ('same-prior-two-parameters', 'all'):
         o['k'] = int(rng.integers(2, 5))
     if variant in ('keys-share-y-objects', 'all'):
@@ -1062,11 +1110,41 @@ def run_alias_case(ctx, idx, rng):
             P = PE.Obs([val + err * np.sqrt(40) * rng.normal(size=40)], ['prShared'])
             gm(P, S=float(rng.choice([0, 1, 3])))
             spec += [(int(m1), 'obs', P), (int(m2), 'obs', P)]
+    spect = None
+    if variant == 'spectator-parameter':
+        # parameter m is touched by every function (0 * p[m]) but enters none: it is fixed by its prior alone, has sensitivity exactly 0
+        # to every datum, sits in the first / last / a middle slot, and must change nothing else
+        spect = [0, k - 1, int(rng.integers(0, k))][(idx // 6) % 3]
+        for s_ in sets:
+            s_['terms'] = [(i_, b_) for i_, b_ in s_['terms'] if i_ != spect] + [(spect, 'zero')]
+        prob['A'] = design_matrix(sets, k, prob['dim'])
+        err = abs(prob['ptrue'][spect]) * float(rng.uniform(0.05, 0.5)) + 0.02
+        if rng.random() < 0.5:
+            spec.append((spect, 'str', prior_string(rng, prob['ptrue'][spect], err)))
+        else:
+            P = PE.Obs([prob['ptrue'][spect] + err * np.sqrt(40) * rng.normal(size=40)], ['prSpect'])
+            gm(P, S=float(rng.choice([0, 1, 3])))
+            spec.append((spect, 'obs', P))
+        for m in rng.permutation([m for m in range(k) if m != spect])[:int(rng.integers(0, 2))]:
+            e2 = abs(prob['ptrue'][m]) * 0.3 + 0.05
+            spec.append((int(m), 'str', prior_string(rng, prob['ptrue'][m], e2)))
     set_priors(prob, spec, as_list=False)
     dy = np.array([float(v.dvalue) for v in ys])
     Lcanon = supplied_factor(rng, dy) if o['weights'] == 'supplied' else None
     ctx.cell('alias', variant, o['weights'], o['method'][:2])
     res, sol, info = fit_and_judge(ctx, prob, o, 'alias:' + variant, 'alias %s %s' % (variant, o['method']), Lcanon=Lcanon, perturb=bool(idx % 2))
+    if res is not None and spect is not None:
+        pr = [v for m, _, v in spec if m == spect][0]
+        pval, perr_ = gls.parse_prior(pr) if isinstance(pr, str) else (float(pr.value), float(pr.dvalue))
+        got = res.fit_parameters[spect]
+        ctx.close(got.value, pval, 'alias:spectator-parameter:not-equal-to-its-prior', 'slot %d of %d' % (spect, k), rtol=0.0, atol=2 * val_tol(o['method'], sol) * perr_)
+        data_chains = set(n for v in ys for n in v.names)
+        own = set(pr.names) if not isinstance(pr, str) else set()
+        # fluctuations on the chains of the data: nothing beyond rounding, measured against the fluctuation that would carry the prior error
+        unit = perr_ * max(float(np.max(np.abs(d_))) / float(v.dvalue) for v in ys for n, d_ in v.deltas.items() if len(d_))
+        leak = max([float(np.max(np.abs(got.deltas[n]))) for n in got.deltas if n in data_chains and n not in own] or [0.0]) / unit
+        ctx.require(leak <= (2e-5 if o['num_grad'] else 1e-8), 'alias:spectator-parameter:depends-on-data', {'slot': spect, 'relative_fluctuation': leak})
+        ctx.count('spectator_parameters_judged')
     if res is not None:
         ctx.count('alias_cases_judged')
         if info and info['nontriv'] and k >= 2:
@@ -1102,7 +1180,8 @@ def run_history_case(ctx, idx, rng):
     A = make_problem(ctx, rng, o)
     if any(v.cov_names for v in unique_inputs(A)):
         raise Skip()
-    B = clone_problem(rng, A)
+    A['funcs'] = {}
+    B = clone_problem(rng, A)                  # shares the dictionary of function objects with A
     dyA = np.array([float(v.dvalue) for v in A['ys']])
     Lcanon = supplied_factor(rng, dyA) if o['weights'] == 'supplied' else None
     what = 'history %s/%s/%s' % (o['method'][:2], o['weights'], o['priors'])
@@ -1120,6 +1199,20 @@ def run_history_case(ctx, idx, rng):
         else:
             # string priors get fresh names: compare without them through the record of values / chains
             same_record(ctx, result_record(res), first[1], 'history:refit-after-other-data-differs', what, rtol=1e-12)
+    # the same function objects once more, on other abscissae and other data (a Jacobian / design matrix remembered per function would show)
+    # (always as an uncorrelated fit without priors and with expected_chisquare, whose hat matrix is the Jacobian of the functions)
+    C = clone_problem(rng, A)
+    C['sets'] = [dict(s_, x=np.asarray(s_['x'], dtype=float) * float(rng.uniform(0.6, 0.9)) + 0.07) for s_ in C['sets']]
+    C['A'] = design_matrix(C['sets'], C['k'], C['dim'])
+    A2 = dict(A)
+    set_priors(A2, [])
+    set_priors(C, [])
+    oc = dict(o, weights='diag', priors='none', expected_chisquare=True)
+    for nm, prob in (('A', A2), ('C', C)):
+        res, sol, info = fit_and_judge(ctx, prob, oc, 'history:same-functions-other-abscissae', '%s functions reused (%s)' % (what, nm))
+        if res is None:
+            return
+        ctx.count('function_objects_reused_on_other_abscissae')
     ctx.count('histories_judged')
     if A['k'] >= 2:
         ctx.nontrivial.add(digest([obs_digest(v) for v in A['ys']], [obs_digest(v) for v in B['ys']], repr(sorted(o.items(), key=str))))
@@ -1265,8 +1358,8 @@ def represent(rng, call, how, prob):
 
 
 def run_flags_case(ctx, idx, rng):
-    how = ['views', 'fortran', 'int-array', 'tuple', 'flags', 'flags-plots', 'tol'][idx % 7]
-    o = hard_options(idx // 7, rng, weights=WEIGHTS[(idx // 7) % 3], priors=PRIORS[(idx // 21) % 5])
+    how = ['views', 'fortran', 'int-array', 'tuple', 'flags', 'flags-plots', 'tol', 'same-arguments-twice'][idx % 8]
+    o = hard_options(idx // 8, rng, weights=WEIGHTS[(idx // 8) % 3], priors=PRIORS[(idx // 24) % 5])
     o['mode'] = 'shared' if o['weights'] == 'estimated' else str(rng.choice(['indep', 'shared', 'nested']))
     if how == 'int-array':
         o['integer_x'] = True
@@ -1274,7 +1367,7 @@ def run_flags_case(ctx, idx, rng):
     if how == 'flags-plots':
         o['dim'] = 1
     if how == 'tol':
-        o['method'] = METHODS[1 + (idx // 7) % 3]
+        o['method'] = METHODS[1 + (idx // 8) % 3]
     prob = make_problem(ctx, rng, o)
     if how == 'flags-plots' and any(len(s_['y']) < 2 for s_ in prob['sets']):
         raise Skip()
@@ -1288,7 +1381,7 @@ def run_flags_case(ctx, idx, rng):
     if r0 is None:
         return
     info0 = judge(ctx, prob, o, r0, sol, 'representation:base', what)
-    call = represent(rng, base_call, how, prob)
+    call = base_call if how == 'same-arguments-twice' else represent(rng, base_call, how, prob)
     x, y, f, pri, kw = call
     if how in ('flags', 'flags-plots'):
         kw['silent'] = False
@@ -1306,7 +1399,7 @@ def run_flags_case(ctx, idx, rng):
     judge(ctx, prob, o, r1, sol, 'representation:' + how, what)
     ctx.count('fits_judged', 2)
     if info0 is not None:
-        if how in ('flags', 'flags-plots'):
+        if how in ('flags', 'flags-plots', 'same-arguments-twice'):
             # output / plots switched on: the same arithmetic, the same numbers
             same_record(ctx, result_record(r1), result_record(r0), 'representation:%s-changes-result' % how, what, rtol=1e-12)
         else:
@@ -1429,5 +1522,6 @@ def run_boundary_case(ctx, idx, rng):
 def run_case(ctx, kind, idx, rng):
     GM.clear()
     runner = {'fit': run_fit_case, 'corrfit': run_corr_case, 'alias': run_alias_case, 'history': run_history_case, 'scale': run_scale_case,
-              'representation': run_flags_case, 'chain': run_chain_case, 'boundary': run_boundary_case, 'expchisq': run_expchisq_case}[kind]
+              'representation': run_flags_case, 'chain': run_chain_case, 'boundary': run_boundary_case, 'expchisq': run_expchisq_case,
+              'spectator': run_spectator_case}[kind]
     runner(ctx, idx, rng)
